@@ -204,7 +204,7 @@ Proof.
   - intros c t e Ht He st env o st' e' H. cbn [exec] in H.
     destruct (eval names this st env c) as [[v s1]| |] eqn:Ev; cbn [rbind] in H; try discriminate.
     pose proof (Fr_Gr _ _ (eval_frame names this _ _ _ _ _ Ev)) as H0.
-    destruct v as [[|]| | | | | | |]; try discriminate.
+    destruct v as [[|]| | | | | | | |]; try discriminate.
     + destruct (exec names this s1 env t) as [[[o1 s2] e1]| |] eqn:Et; cbn [rbind] in H; try discriminate.
       inversion H; subst. eapply Gr_trans; [exact H0|]. eapply Ht. exact Et.
     + destruct e as [n|].
@@ -221,7 +221,7 @@ Proof.
       - destruct (eval names this s0 e c) as [[cv s3]| |] eqn:Ec; cbn [rbind] in Ef; try discriminate.
         pose proof (Fr_Gr _ _ (eval_frame names this _ _ _ _ _ Ec)) as Hc.
         match type of Ef with context [rbind ?m _] => destruct m as [m0| |] eqn:Em; cbn [rbind] in Ef; try discriminate end.
-        destruct m0 as [[|]| | | | | | |]; try discriminate.
+        destruct m0 as [[|]| | | | | | | |]; try discriminate.
         + inversion Ef; subst. exact Hc.
         + eapply Gr_trans; [exact Hc|]. eapply IH. exact Ef. }
     destruct (run_clauses (exec names this) default found cases 0 false s2 e) as [[[o1 s3] e3]| |] eqn:Er; cbn [rbind] in H; try discriminate.
